@@ -190,7 +190,17 @@ def items_expr(items, via_bufio, files, tag):
     return out
 
 
+_kinds = [0]
+
+
 def lit_expr(b, files, tag):
+    # a part need not be a string: an address is its four octets, an integer literal its eight bytes (every third such
+    # part is written that way; the bytes that must follow the length are the same)
+    if len(b) in (4, 8):
+        _kinds[0] += 1
+        if _kinds[0] % 3 == 0:
+            v = int.from_bytes(b, "big")
+            return gen.Lit("ip", v, "%d.%d.%d.%d" % tuple(b)) if len(b) == 4 else INT(v)
     if len(b) <= 1200:
         return STR(b)
     fn = "%s_f%d.bin" % (tag, len(files))
@@ -483,6 +493,11 @@ def helper_cases(ctx, prefix=""):
                 continue
             for n in framers(parts(r, size, count)):
                 add([n], "helper:%s" % n.kind)
+    # parts that are not strings: addresses (4 octets) and integer literals (8 bytes) among string parts
+    for rep in range(3):
+        typed = [b"ab", bytes([192, 168, rep, 1]), b"cd", (0x0102030405060708 + rep).to_bytes(8, "big"), bytes([10, 0, 0, 7 + rep]), b""]
+        for n in framers([L(x) for x in typed[rep:] + typed[:rep]]):
+            add([n], "helper-typed-parts:%s" % n.kind)
     big = [65535, 65536] if ctx.thorough else [65535]
     for size in big:
         for count in (1, 3):
